@@ -450,7 +450,10 @@ def run_check(spec, tier, seed, workers=None, runs=None, budget_s=None, out=sys.
         def fails(c, _v=viol):
             vs, info, herr = run_one(spec, c)
             return herr is None and any(x['clause'] == _v['clause'] and x['tag'] == _v['tag'] for x in vs)
-        small, tries = shrink(scn, fails, budget_s=12 if tier == 'quick' else 60)
+        if os.environ.get('VERIF_NO_SHRINK'):
+            small, tries = scn, 0
+        else:
+            small, tries = shrink(scn, fails, budget_s=12 if tier == 'quick' else 60)
         vs, info, herr = run_one(spec, small)
         vv = [x for x in vs if x['clause'] == viol['clause'] and x['tag'] == viol['tag']]
         if not vv:
